@@ -23,6 +23,9 @@ def ev(**kw):
     return e
 
 
+_SEEN_HANG: list = []
+
+
 def one(rng: random.Random, k: int) -> dict:
     td = c02.random_desc(rng, rng.randint(2, 5), picker=True)
     pd = pcall.tla_desc_to_py(td)
@@ -49,8 +52,9 @@ def one(rng: random.Random, k: int) -> dict:
         if fd["name"] == victim:
             fd["fail"] = {"when": "*", "cls": cls, "args": args, "prenote": k % 2 == 1, "argskw": twice, "shared": shared}
     build.LOG.clear()
+    profiled = k % 7 == 3      # resource profiling switched on: a failing call must still come back (watchdog below)
     with contextlib.redirect_stdout(io.StringIO()):
-        pl = build.make_pipeline(pd)
+        pl = build.make_pipeline(pd, profile=True) if profiled else build.make_pipeline(pd)
     # the pipeline object that fails may have been restored from a pickle (shipped from another session) or deep-copied:
     # it is the same pipeline, and exposes its failures the same way
     if k % 5 in (2, 4):
@@ -72,7 +76,26 @@ def one(rng: random.Random, k: int) -> dict:
         start = len(build.LOG)
         try:
             with contextlib.redirect_stdout(io.StringIO()):
-                pl(o, **kwargs) if (k + j) % 2 else pl.run(o, kwargs=kwargs)
+                if profiled:
+                    import threading
+                    box: dict = {}
+
+                    def body(j=j, kwargs=kwargs, box=box):
+                        try:
+                            pl(o, **kwargs) if (k + j) % 2 else pl.run(o, kwargs=kwargs)
+                        except Exception as e_:  # noqa: BLE001
+                            box["exc"] = e_
+                    th = threading.Thread(target=body, daemon=True)
+                    th.start()
+                    th.join(10.0 if _SEEN_HANG else 60.0)
+                    if th.is_alive():
+                        _SEEN_HANG.append(1)      # the verdict is already a violation: the rest may fail fast       # "the call returns instead of hanging": no action explains a hang
+                        events.append(ev(e="hang"))
+                        break
+                    if "exc" in box:
+                        raise box["exc"]
+                else:
+                    pl(o, **kwargs) if (k + j) % 2 else pl.run(o, kwargs=kwargs)
             events.append(ev(e="return"))
             break
         except Exception as ex:  # noqa: BLE001
@@ -126,7 +149,7 @@ def run(ctx) -> None:
     for i, reached in rej.items():
         t = traces[i]
         e = t["ev"][reached - 1]
-        clause = "surface"
+        clause = "hang" if e["e"] == "hang" else "surface"
         if e["e"] == "raise":
             f0 = next((x for x in reversed(t["ev"][:reached]) if x["e"] == "callfail"), {"cls": "", "args": []})
             clause = ("retyped" if e["cls"] != f0["cls"] else "args-changed" if e["args"] != f0["args"] else
